@@ -411,7 +411,7 @@ pub fn oracle(f: u32, a: &Args, out: &Args) -> Option<(&'static str, String)> {
             let mut expect = b2a(&enc(a[0][0]));
             expect.extend(&a[1]);
             if out[1] != expect {
-                return Some(("C14", "async writers with partial writes emitted different bytes".into()));
+                return Some(("C14+C16+C01", format!("async writers with partial writes / Pending emitted {} bytes instead of the {} of the encoding", out[1].len(), expect.len())));
             }
             None
         }
@@ -703,6 +703,11 @@ pub fn generate_frame(rng: &mut Rng, thorough: bool) -> Vec<Case> {
             }
         }
         cs.push(Case::new(209, vec![vec![v], b2a(&rng.bytes(5)), vec![1, 0, 0, 2, 1]], "put-machines"));
+        // longer payloads: a few bytes accepted, then Pending, again and again
+        for sched in [vec![8u64, 0, 8, 0, 8, 0, 8], vec![1, 1, 0, 5, 0, 0, 3, 0, 64], vec![3, 0, 3, 0, 3, 0, 3, 0, 3, 0, 300]] {
+            let n = 10 + rng.below(30) as usize;
+            cs.push(Case::new(209, vec![vec![v], b2a(&rng.bytes(n)), sched], "put-machines-long"));
+        }
     }
     for n in [0usize, 1, 2, 5, 17] {
         for avail in [0usize, 1, n.saturating_sub(1), n, n + 3] {
